@@ -187,6 +187,9 @@ def run_check(prop: str, tier: str, seed: int, replay_path: str | None = None) -
     budget = check.budget(tier)
     nshards = 1 if replay_path else max(1, min(MAX_SHARDS, budget.get("shards", MAX_SHARDS)))
     deadline = float(budget.get("deadline_s", 60 if tier == "quick" else 900))
+    # The soft deadline only ever reduces the number of cases.  The quick tier is bounded by its case counts; its deadline is
+    # a generous cap (2.5 x the budget measured on a loaded 16-core machine) so that a slower machine still observes everything.
+    deadline *= float(os.environ.get("VF_DEADLINE_SCALE", "2.5" if tier == "quick" else "1"))
     watchdog = deadline * 3 + 180
     contracts = ensure_deps()
     scratch = tempfile.mkdtemp(prefix=f"vf_{prop}_")
